@@ -470,6 +470,47 @@ func runCrypto(c *Ctx, r *Reporter) {
 					}
 				}
 			}
+			// `if marked == matches { continue }` followed by `if marked { … }`: the one flag is known through the other
+			for _, f := range impliedConds(b) {
+				bo, ok := f.Cond.(*ssa.BinOp)
+				if !ok || (bo.Op != token.EQL && bo.Op != token.NEQ) {
+					continue
+				}
+				var lk *ssa.Lookup
+				var cmp *ssa.BinOp
+				for _, side := range []ssa.Value{bo.X, bo.Y} {
+					switch x := side.(type) {
+					case *ssa.Lookup:
+						if !x.CommaOk {
+							lk = x
+						}
+					case *ssa.BinOp:
+						if (x.Op == token.EQL || x.Op == token.NEQ) && isStringType(x.X.Type()) {
+							cmp = x
+						}
+					}
+				}
+				if lk == nil || cmp == nil {
+					continue
+				}
+				sameTruth := (bo.Op == token.EQL) == f.Truth // marked and the comparison have the same truth value
+				cmps = append(cmps, cmp)
+				switch {
+				case marked != nil && equal == nil:
+					c := *marked
+					if !sameTruth {
+						c = !c
+					}
+					t := c == (cmp.Op == token.EQL)
+					equal = &t
+				case equal != nil && marked == nil:
+					c := *equal == (cmp.Op == token.EQL) // the comparison's own truth
+					if !sameTruth {
+						c = !c
+					}
+					marked = &c
+				}
+			}
 			switch {
 			case marked != nil && equal != nil:
 				rejected[combo{*marked, *equal}] = true
